@@ -3,6 +3,7 @@ reader idiom (_unpack_*/unpack classmethods) of the codec, by abstract interpret
 from __future__ import annotations
 
 import ast
+import copy
 from dataclasses import dataclass, field
 from typing import Any, Dict, List, Optional, Tuple
 
@@ -136,16 +137,36 @@ class WriterExtractor:
         return root
 
     # ------------------------------------------------------------------ statements
+    @staticmethod
+    def _guard_clause(s: ast.stmt) -> Optional[ast.expr]:
+        """`if not X: return` / `if X is None: return`  ->  the presence test under which the rest of the block runs."""
+        if not (isinstance(s, ast.If) and not s.orelse and len(s.body) == 1 and isinstance(s.body[0], ast.Return) and s.body[0].value is None):
+            return None
+        t = s.test
+        if isinstance(t, ast.UnaryOp) and isinstance(t.op, ast.Not):
+            return t.operand
+        if isinstance(t, ast.Compare) and len(t.ops) == 1 and isinstance(t.ops[0], ast.Is) and isinstance(t.comparators[0], ast.Constant) and t.comparators[0].value is None:
+            return ast.copy_location(ast.Compare(left=t.left, ops=[ast.IsNot()], comparators=t.comparators), t)
+        return None
+
     def _block(self, stmts: List[ast.stmt], env: Dict[str, Any], fi: FuncInfo, cls_q: str) -> Optional[List[WNode]]:
-        for s in stmts:
+        for i, s in enumerate(stmts):
+            g = self._guard_clause(s)
+            if g is not None and i + 1 < len(stmts):
+                rest = ast.copy_location(ast.If(test=g, body=list(stmts[i + 1:]), orelse=[]), s)
+                return self._stmt(rest, env, fi, cls_q)
             r = self._stmt(s, env, fi, cls_q)
             if r is not None:
                 return r
         return None
 
-    def _tag(self, e: Optional[ast.expr], fi: FuncInfo, cls_q: str) -> Optional[TagConst]:
+    def _tag(self, e: Optional[ast.expr], fi: FuncInfo, cls_q: str, env: Optional[Dict[str, Any]] = None) -> Optional[TagConst]:
         if e is None:
             return None
+        if isinstance(e, ast.Name) and env is not None and env.get(e.id, ("",))[0] == "const":
+            v = env[e.id][1]
+            if v is None or isinstance(v, TagConst):
+                return v
         try:
             v = self.folder.fold(e, fi.module, {k: v[1] for k, v in ()}, cls_q)
         except Unfoldable as ex:
@@ -227,7 +248,7 @@ class WriterExtractor:
             for k in c.keywords:
                 if k.arg == "tag":
                     tag_e = k.value
-            tag = self._tag(tag_e, fi, cls_q) or self.default_tags[c.func.attr]
+            tag = self._tag(tag_e, fi, cls_q, env) or self.default_tags[c.func.attr]
             node = WNode("cons", PUSH_KINDS[c.func.attr], tag, line=s.lineno, func=fi.qualname)
             w[1].append(node)
             env2 = dict(env)
@@ -300,6 +321,8 @@ class WriterExtractor:
 
     def _call(self, c: ast.Call, env: Dict[str, Any], fi: FuncInfo, cls_q: str, assign_to: Optional[str]):
         f = c.func
+        if isinstance(f, ast.Name):
+            return self._helper_call(c, env, fi, cls_q, assign_to)
         if not isinstance(f, ast.Attribute):
             return None
         recv = f.value
@@ -310,7 +333,7 @@ class WriterExtractor:
             for k in c.keywords:
                 if k.arg == "tag":
                     tag_e = k.value
-            tag = self._tag(tag_e, fi, cls_q) or self.default_tags[f.attr]
+            tag = self._tag(tag_e, fi, cls_q, env) or self.default_tags[f.attr]
             val = c.args[0] if c.args else None
             src = self._src(val, env, fi) if val is not None else Src("unknown")
             if isinstance(val, ast.Name) and env.get(val.id, ("",))[0] == "grammar":
@@ -351,6 +374,55 @@ class WriterExtractor:
                 env[wargs[0].id][1].append(WNode("ref", nt=tcls, src=Src("elem" if is_elem else "field", path), line=c.lineno, func=fi.qualname))
             return None
         self.grammar_into(tcls, f.attr, path, wargs, env)
+        return None
+
+    def _helper_call(self, c: ast.Call, env: Dict[str, Any], fi: FuncInfo, cls_q: str, assign_to: Optional[str]):
+        """A module-level helper that is handed a writer: interpreted in place, with its parameters bound to the
+        caller's writer / field sources (a pack loop moved out of a method reads the same)."""
+        pairs = [(i, None, a) for i, a in enumerate(c.args)] + [(None, k.arg, k.value) for k in c.keywords]
+        wnames = [a for _, _, a in pairs if isinstance(a, ast.Name) and env.get(a.id, ("",))[0] == "writer"]
+        if not wnames:
+            return None
+        q = self.m.resolve_name(fi.module, c.func.id)
+        hf = self.m.functions.get(q) if q else None
+        if hf is None or hf.cls is not None or isinstance(hf.node, ast.Lambda):
+            raise AnalysisError(f"{fi.qualname}:{c.lineno}: a writer is handed to `{norm(c.func)}`, which is not a package function")
+        if getattr(self, "_helper_depth", 0) > 4:
+            raise AnalysisError(f"{fi.qualname}:{c.lineno}: helper nesting too deep")
+        ps = hf.params()
+        env2: Dict[str, Any] = {}
+        for i, kw, a in pairs:
+            p_ = ps[i] if i is not None and i < len(ps) else kw
+            if p_ is None or p_ not in ps:
+                continue
+            if isinstance(a, ast.Name) and a.id in env:
+                env2[p_] = env[a.id]
+            else:
+                sr = self._src(a, env, fi)
+                if sr.kind in ("field", "elem"):
+                    env2[p_] = ("src", sr)
+                    continue
+                try:
+                    env2[p_] = ("const", self.folder.fold(a, fi.module, None, cls_q))
+                except Unfoldable:
+                    if sr.kind != "unknown":
+                        env2[p_] = ("src", sr)
+        # parameters left to their defaults
+        a_ = hf.node.args
+        allp = a_.posonlyargs + a_.args
+        for p_, d in list(zip(allp[len(allp) - len(a_.defaults):], a_.defaults)) + [(p2, d2) for p2, d2 in zip(a_.kwonlyargs, a_.kw_defaults) if d2 is not None]:
+            if p_.arg not in env2:
+                try:
+                    env2[p_.arg] = ("const", self.folder.fold(d, hf.module, None, None))
+                except Unfoldable:
+                    pass
+        self._helper_depth = getattr(self, "_helper_depth", 0) + 1
+        try:
+            sub = self._block(hf.node.body, env2, hf, cls_q)
+        finally:
+            self._helper_depth -= 1
+        if assign_to is not None:
+            return self._value_of(sub)
         return None
 
     def _is_abstract(self, cls_q: str, method: str) -> bool:
@@ -574,11 +646,14 @@ class ReaderExtractor:
     # ------------------------------------------------------------------ helpers
     def _tagtests(self, t: ast.expr, st) -> Optional[Tuple[str, TagSpec]]:
         """Conjunction of tests on `<h>.tag.tag_class == TagClass.X` / `<h>.tag.tag_number == N` -> (header var, spec)."""
+        t = self._subst_aliases(t, st)
         conj = t.values if isinstance(t, ast.BoolOp) and isinstance(t.op, ast.And) else [t]
         hv = None
         cls_name = None
         number = None
         found = False
+        conj = [x for c in conj for x in self._inline_predicate(c, st)]
+        conj = [y for x in conj for y in (x.values if isinstance(x, ast.BoolOp) and isinstance(x.op, ast.And) else [x])]
         for c in conj:
             if isinstance(c, ast.Name):
                 continue            # `next_header and ...`
@@ -607,6 +682,73 @@ class ReaderExtractor:
         if not found:
             return None
         return hv, TagSpec("header", None, cls_name, number)
+
+    def _subst_aliases(self, t: ast.expr, st) -> ast.expr:
+        """Locals that merely name a part of a peeked header (`tag = header.tag`, `is_ctx = tag.tag_class == ...`) are
+        replaced by what they stand for, so that a test reads the same with or without the intermediate local."""
+        al = st.get("aliases") or {}
+        if not al or not any(isinstance(x, ast.Name) and x.id in al for x in ast.walk(t)):
+            return t
+
+        class Sub(ast.NodeTransformer):
+            def visit_Name(self, n: ast.Name):
+                if isinstance(n.ctx, ast.Load) and n.id in al:
+                    return copy.deepcopy(al[n.id])
+                return n
+        out = t
+        for _ in range(4):
+            out = Sub().visit(copy.deepcopy(out))
+            if not any(isinstance(x, ast.Name) and x.id in al for x in ast.walk(out)):
+                break
+        ast.fix_missing_locations(out)
+        return out
+
+    def _note_alias(self, name: str, v: ast.expr, st) -> bool:
+        if any(isinstance(x, (ast.Call, ast.Lambda, ast.Await, ast.NamedExpr)) for x in ast.walk(v)):
+            return False
+        names = {x.id for x in ast.walk(v) if isinstance(x, ast.Name)}
+        roots = set(st["headers"]) | set(st.get("aliases") or {})
+        if not names or not (names & roots):
+            return False
+        st.setdefault("aliases", {})[name] = v
+        return True
+
+    def _inline_predicate(self, c: ast.expr, st, depth: int = 0) -> List[ast.expr]:
+        """A call to a module-level predicate helper (straight-line aliases + one `return <bool expr>`) is replaced by its
+        returned expression with the arguments substituted, so that a tag test moved into a helper reads the same."""
+        if not (isinstance(c, ast.Call) and isinstance(c.func, ast.Name)) or depth > 3:
+            return [c]
+        q = self.m.resolve_name(st["fi"].module, c.func.id)
+        hf = self.m.functions.get(q) if q else None
+        if hf is None or hf.cls is not None or isinstance(hf.node, ast.Lambda):
+            return [c]
+        body = [b for b in hf.node.body if not (isinstance(b, ast.Expr) and isinstance(b.value, ast.Constant))]
+        if not body or not isinstance(body[-1], ast.Return) or body[-1].value is None:
+            return [c]
+        params = hf.params()
+        sub: Dict[str, ast.expr] = {}
+        for p_, a in zip(params, c.args):
+            sub[p_] = a
+        for k in c.keywords:
+            if k.arg in params:
+                sub[k.arg] = k.value
+        if set(params) - set(sub):
+            return [c]
+
+        class Sub(ast.NodeTransformer):
+            def visit_Name(self, n: ast.Name):
+                if isinstance(n.ctx, ast.Load) and n.id in sub:
+                    return copy.deepcopy(sub[n.id])
+                return n
+        for b in body[:-1]:
+            if isinstance(b, ast.Assign) and len(b.targets) == 1 and isinstance(b.targets[0], ast.Name):
+                sub[b.targets[0].id] = Sub().visit(copy.deepcopy(b.value))
+            else:
+                return [c]
+        e = Sub().visit(copy.deepcopy(body[-1].value))
+        ast.fix_missing_locations(e)
+        parts = e.values if isinstance(e, ast.BoolOp) and isinstance(e.op, ast.And) else [e]
+        return [x for p_ in parts for x in self._inline_predicate(p_, st, depth + 1)]
 
     def _read_call(self, e: ast.expr, st) -> Optional[Tuple[str, str, ast.Call, str]]:
         """(reader var, method, call, conv) for  R.read_x(...)[.decode(enc)]"""
@@ -685,13 +827,37 @@ class ReaderExtractor:
     def _stmt(self, s: ast.stmt, st) -> None:
         fi: FuncInfo = st["fi"]
         res: ReaderResult = st["res"]
+        if isinstance(s, ast.AugAssign) and isinstance(s.op, ast.Add) and isinstance(s.target, ast.Name) and isinstance(s.value, ast.Call):
+            s = ast.copy_location(ast.Expr(value=ast.Call(func=ast.Attribute(value=s.target, attr="extend", ctx=ast.Load()), args=[s.value], keywords=[])), s)
+            ast.fix_missing_locations(s)
         if isinstance(s, ast.Expr):
             v = s.value
+            if isinstance(v, ast.Call) and isinstance(v.func, ast.Attribute) and v.func.attr == "extend" and isinstance(v.func.value, ast.Name) and len(v.args) == 1 and isinstance(v.args[0], ast.Call):
+                # lst.extend(helper(reader, ...)): the helper is inlined; what it returns lands in lst
+                lst = v.func.value.id
+                name = f"<extend:{lst}:{s.lineno}>"
+                self._nested(name, v.args[0], st)
+                res.appended[name] = lst
+                return
             if isinstance(v, ast.Call) and isinstance(v.func, ast.Attribute) and v.func.attr == "append" and isinstance(v.func.value, ast.Name) and v.args:
                 lst = v.func.value.id
                 a = v.args[0]
                 # append of a fresh read, or of a previously read local
                 n = self._emit_read(None, a, st, appended_to=lst)
+                if n is None and isinstance(a, ast.Call) and any(isinstance(x, ast.Name) and x.id in st["readers"] for x in a.args):
+                    # lst.append(helper(reader, ...)) / lst.append(Cls.unpack(reader, ...))
+                    name = f"<append:{lst}:{s.lineno}>"
+                    before = len(st["emitted"])
+                    self._nested(name, a, st)
+                    hit = False
+                    for nd in st["emitted"][before:]:
+                        if nd.var == name:
+                            nd.var = ""
+                            nd.appended_to = lst
+                            hit = True
+                    if not hit:
+                        res.appended[name] = lst
+                    return
                 if n is None:
                     inner = a
                     conv = None
@@ -742,6 +908,9 @@ class ReaderExtractor:
                     self._nested(name, v, st)
                     if name in st["values"] or any(nd.var == name for nd in self._all_nodes(res.nodes)):
                         return
+                if self._note_alias(name, v, st):
+                    return
+                (st.get("aliases") or {}).pop(name, None)
                 if name not in res.defaults:
                     res.defaults[name] = v
                 return
@@ -775,6 +944,11 @@ class ReaderExtractor:
                                 res.conv_of_var[inner.id] = conv
                         if isinstance(inner, ast.Name):
                             res.field_of_var[inner.id] = fname
+                        elif isinstance(inner, ast.Call) and any(isinstance(x, ast.Name) and x.id in st["readers"] for x in inner.args):
+                            # Cls(field=helper(reader, ...)): the helper is inlined as if bound to a local first
+                            nm = f"<arg:{fname}>"
+                            self._nested(nm, inner, st)
+                            res.field_of_var[nm] = fname
                         else:
                             res.field_of_var[f"<expr:{norm(a)[:40]}>"] = fname
                 elif q in self.m.functions and any(isinstance(a, ast.Name) and a.id in st["readers"] for a in v.args):
@@ -861,8 +1035,13 @@ class ReaderExtractor:
                             if nd.var == v and nd.func == sub.func:
                                 nd.var = tg.elts[i].id
                                 nd.func = st["fi"].qualname
+                            elif nd.appended_to == v and nd.func == sub.func:
+                                nd.appended_to = tg.elts[i].id
+                                nd.func = st["fi"].qualname
                         if v in sub.conv_of_var:
                             st["res"].conv_of_var[tg.elts[i].id] = sub.conv_of_var[v]
+                        if v in sub.defaults and tg.elts[i].id not in st["res"].defaults:
+                            st["res"].defaults[tg.elts[i].id] = sub.defaults[v]
 
     def _while(self, s: ast.While, st) -> None:
         fi: FuncInfo = st["fi"]
@@ -873,6 +1052,7 @@ class ReaderExtractor:
         target = st["readers"][rv]
         if peeks:
             hv = peeks[0].targets[0].id
+            st["headers"].setdefault(hv, None)
             node = RNode("optset", loop=True, line=s.lineno, func=fi.qualname)
             target.append(node)
             for b in s.body:
@@ -883,6 +1063,8 @@ class ReaderExtractor:
                 elif isinstance(b, ast.Expr) and isinstance(b.value, ast.Call) and isinstance(b.value.func, ast.Attribute) and b.value.func.attr == "skip_value":
                     node.skip_unknown = True
                 elif isinstance(b, (ast.Continue, ast.Pass)):
+                    pass
+                elif isinstance(b, ast.Assign) and len(b.targets) == 1 and isinstance(b.targets[0], ast.Name) and self._note_alias(b.targets[0].id, b.value, st):
                     pass
                 else:
                     raise AnalysisError(f"{fi.qualname}:{b.lineno}: unsupported statement in a tag-dispatch loop")
@@ -914,6 +1096,9 @@ class ReaderExtractor:
                     self._if(cur[0], st, optset, hv, rv, outer)
                     cur = []
                 else:
+                    if optset is not None and any(isinstance(b, ast.Expr) and isinstance(b.value, ast.Call) and isinstance(b.value.func, ast.Attribute) and b.value.func.attr == "skip_value" for b in cur):
+                        optset.skip_unknown = True
+                        cur = [b for b in cur if not (isinstance(b, ast.Expr) and isinstance(b.value, ast.Call) and isinstance(b.value.func, ast.Attribute) and b.value.func.attr == "skip_value")]
                     self._block(cur, st)
                     cur = []
             return
